@@ -10,7 +10,7 @@ TECHNIQUE = "static analysis over type-checked MIR: Result-discipline inventory 
 LEVEL_TEXT = """Static, all-paths decision of the error/recovery clauses: (E1) every call in the cone of RollingFileAppender::append (policy, rollers, helpers) whose callee returns a Result has its value propagated, matched or passed on — enumerated exceptions: best-effort diagnostics written to stderr; (E2) no un-discharged panic site on the rotation path (append, get_writer, LogFile::roll, CompoundPolicy::process, every Roll implementor and helpers; cut at dyn Encode and dyn Trigger); (E3) the writer slot is None after roll() whether or not the roller succeeds and the next append reopens the active path, appending unless it truncates — never positioned at offset 0 of content it keeps (C05.R3/R5 premises); (E4) no OpenOptions::truncate whose argument can be true is reachable from Append::append — the argument's truth table is evaluated per calling context with the call site's constant arguments bound; (E5) archives are shifted oldest-first, so the only chunk ever overwritten is the one due for eviction, and a move that fails leaves its source where it was (rename first; the copy fallback removes the source only on the copy's success edge; C07.R5 re-evaluated). On-disk states at every crash point and after every fault are not decided (they need the file system)."""
 LEVEL_NOTE = "Trusted: rustc MIR/callee resolution; std::fs semantics; the external may-panic contract table. Decides error propagation, panic freedom, reopen mode and shift order on all paths; not crash images."
 EXPLANATION = """Decided: E1 error discipline, E2 no panic on the rotation path, E3 recoverability (slot closed, reopened iff closed), E4 reopening never truncates, E5 crash ordering (oldest first). Undecided: on-disk state at every crash point / after every fault sequence."""
-DECIDED = ["E1", "E2", "E3", "E4", "E5", "E1b no Ok return is reachable from the Err edge of a file-system call on the rotation path (only rename/NotFound is tolerated)"]
+DECIDED = ["E1", "E2", "E3", "E4", "E5", "E1b no Ok return is reachable from the Err edge of a file-system call on the rotation path (only rename/NotFound is tolerated)", "E1c nor from the Err edge of a step the crate implements itself (policy, trigger, roller)", "E5c/E7 final step last, staging name fresh (C07.R3/R12 re-evaluated)"]
 UNDECIDED = ["on-disk states at every crash point and after every fault"]
 TRUSTED = ["rustc nightly MIR + Instance::try_resolve", "std::fs semantics", "external may-panic contract table"]
 
@@ -118,6 +118,50 @@ def run_cfg(ctx, p, cfg):
                           fail_detail="an error of %s can end in an Ok return (switch bb%s -> Ok exits %s): the step is skipped silently and the rotation goes on as if it had succeeded" % (
                               c.callee, leaks[0][0] if leaks else None, leaks[0][1] if leaks else None))
         r.floor("fs-calls-on-the-rotation-path", n, 6)
+
+    with ctx.rule("E1c", "errors of the rotation's own steps are not swallowed", cfg) as r:
+        # E1b for the steps the crate implements itself (policy, trigger, roller, helpers): a failed step ends in an error of the
+        # append that ran it, never in an Ok - "the failing append reports an error"
+        cone = rotation_cone(p)
+        n = 0
+        for path in sorted(cone):
+            f = p.fns[path]
+            if "Derive" in (f.d.get("exp") or ""):
+                continue
+            oks = set(q.ok_exit_blocks(f))
+            if not oks or "Result<" not in (f.d.get("sig") or "").rsplit("->", 1)[-1]:
+                continue        # the detached worker of background rotation returns nothing: its failures go to stderr, there is no append left to report them
+            for c in f.calls():
+                cal = c.callee or ""
+                if not c.t.get("dest_ty", "").startswith("core::result::Result<") or not (cal in p.fns or cal.startswith("append::rolling_file::")):
+                    continue
+                if cal.endswith("from_residual") or cal.endswith("Try::branch"):
+                    continue
+                n += 1
+                leaks = []
+                for blk in f.blocks:
+                    if blk["term"]["k"] != "switch" or blk["id"] not in f.reachable_blocks():
+                        continue
+                    si = SwitchInfo(f, blk["id"])
+                    d = strip(si.discr)
+                    if d[0] != "discr":
+                        continue
+                    inner = strip(d[1])
+                    if inner[0] == "call" and inner[1] == "core::ops::try_trait::Try::branch" and inner[2]:
+                        inner = strip(inner[2][0])
+                    if not (inner[0] == "call" and len(inner) > 3 and inner[3] == c.block):
+                        continue
+                    for lab in ("Err", "Break"):
+                        t = si.target_of(lab)
+                        if t is not None:
+                            hit = oks & f.reach(t, include_src=True)
+                            if hit:
+                                leaks.append((blk["id"], sorted(hit)))
+                r.require(not leaks, "step-error-reaches-the-caller:%s/%s" % (path.rsplit("::", 1)[-1], common.role(c)), fn=f, site=c.at,
+                          detail="no Ok return is reachable from the Err edge of %s" % cal,
+                          fail_detail="an error of %s can end in an Ok return of %s (switch bb%s -> Ok exits %s): the failed step is not reported by the append that ran it" % (
+                              cal, path.rsplit("::", 1)[-1], leaks[0][0] if leaks else None, leaks[0][1] if leaks else None))
+        r.floor("own-steps-on-the-rotation-path", n, 3)
 
     with ctx.rule("E2", "no panic on the rotation path", cfg) as r:
         cone = rotation_cone(p)
